@@ -45,7 +45,12 @@ class BenchAst:
             t = rng.choice(GATES)
             k = 1 if t in ("buf", "buff", "not") else rng.randint(1, min(4, len(pool)))
             net = f"{rng.choice(['n', 'w', 'G1'])}{i}"
-            self.gates.append((net, t, rng.sample(pool, k)))
+            ops = rng.sample(pool, k)
+            if k >= 1 and t not in ("buf", "buff", "not") and rng.random() < 0.12:
+                dup = rng.choice(ops)                     # an operand given 2, 3 or 4 times (cancels in XOR/XNOR: K35)
+                for _ in range(rng.randint(1, 3)):
+                    ops.insert(rng.randrange(len(ops) + 1), dup)
+            self.gates.append((net, t, ops))
             pool.append(net)
         for q in qs:
             self.dffs.append((q, rng.choice([p for p in pool if p != q])))
